@@ -21,6 +21,7 @@
      aggregator_handlers.go roundedToOurTime loop            RoundLoop (= Conveyor!RoundUp)
      aggregator_handlers.go window filing                    Conveyor!Filing (reused)
      aggregator.go goTicker "only own seconds"               TickHandoff
+     aggregator.go checkShardConfiguration                   AcceptsSender
 
    One state variable pt holds one evaluated grid point (inputs and outputs).  Next picks any
    grid point once (depth 1), so TLC visits the whole grid; the property invariants read only
@@ -120,6 +121,11 @@ RoundLoop(t, r) == IF t % 3 = r - 1 THEN t ELSE RoundLoop(t + 1, r)
 \* (any other bucket must be empty, the code panics otherwise)
 TickHandoff(r, T) == T % 3 = r - 1
 
+\* checkShardConfiguration: the aggregator of shard key sk, replica key r (both 1-based) takes a
+\* bucket only if the sender addressed it: header.ShardReplica = (sk-1)*3 + (r-1).  Agents fill the
+\* header with the index of the ShardReplica they chose (fillProxyHeader).
+AcceptsSender(sk, r, sr) == sr = (sk - 1) * 3 + (r - 1)
+
 --------------------------------------------------------------------------------
 (* Grid points.  Every constructor returns inputs and the specification's outputs. *)
 None == [a |-> "none"]
@@ -149,6 +155,8 @@ FilePt(r, s, h, oldest, newest, hw) ==
      out |-> Filing(r, s, h, oldest, newest, hw)]
 
 TickPt(r, T) == [a |-> "tick", r |-> r, T |-> T, handoff |-> TickHandoff(r, T)]
+
+AddrPt(sk, r, sr) == [a |-> "addr", sk |-> sk, r |-> r, sr |-> sr, accepted |-> AcceptsSender(sk, r, sr)]
 
 ConfigPt(N, S) == [a |-> "config", N |-> N, S |-> S, eff |-> AggEffective(S, N)]
 
@@ -185,6 +193,7 @@ Next == /\ pt = None      \* depth 1: every grid point is a successor of the ini
            \/ \E w \in WindowCases : \E s \in SendTimes(w), r \in 1..3, h \in BOOLEAN : Pick(FilePt(r, s, h, w.oldest, w.newest, w.hw))
            \/ \E r \in 1..3, T \in Times : Pick(TickPt(r, T))
            \/ \E c \in Configs : Pick(ConfigPt(c[1], c[2]))
+           \/ \E sk \in 1..2, r \in 1..3, sr \in 0..6 : Pick(AddrPt(sk, r, sr))
 Spec == Init /\ [][Next]_vars
 View == pt
 
@@ -248,6 +257,8 @@ FiledOwnSoon == Is("file") =>
            /\ pt.out.T \in pt.s..(pt.s + 2)
            /\ OwnerOf(pt.out.T) = pt.r - 1
            /\ pt.out.T \in pt.oldest..pt.newest)
+\* an aggregator takes only what was addressed to its own shard replica
+AddressedToMe == Is("addr") => (pt.accepted => pt.sr = (pt.sk - 1) * 3 + pt.r - 1)
 \* only own seconds are handed to the inserters
 TickOwn == Is("tick") => (pt.handoff => OwnerOf(pt.T) = pt.r - 1)
 
@@ -271,6 +282,9 @@ Theorems == Is("none") =>
          /\ (p.out.kind = "file" /\ p.out.q = "recent") => TickHandoff(p.r, p.out.T)
          /\ (p.out.kind = "file" /\ p.out.q = "historic") => (p.hist /\ p.out.T = p.s)
          /\ (p.out.kind = "reject" /\ ~p.out.discard) => ~p.hist   \* "late": resend through the historic conveyor
+    \* what an agent sends to ShardReplicas[i] (ShardKey i/3+1, ReplicaKey i%3+1) is taken by that aggregator only
+    /\ \A i \in 0..(3 * MaxN - 1) : \A sk \in 1..MaxN, r \in 1..3 :
+         AcceptsSender(sk, r, i) <=> (sk = (i \div 3) + 1 /\ r = (i % 3) + 1)
     \* uint32 arithmetic on negative ids
     /\ U32Mod(-1, 3) = 0 /\ U32Mod(-1, 5) = 0 /\ U32Mod(-2, 5) = 4 /\ U32Mod(-1, 6) = 3 /\ U32Mod(-7, 4) = 1
     /\ ByMappedTags(<<65535, 65535>>, 6) = 5 /\ ByMappedTags(<<32768, 0>>, 2) = 1 /\ ByMappedTags(<<32767, 65535>>, 2) = 0
